@@ -18,7 +18,7 @@ func init() {
 	})
 	register(&Prop{
 		ID: "C15",
-		Rules: []*Rule{rDomainGetter, rFramePerEntry, rReport, rReverse, rFuncName, rIndexFound, rPerLayer, scoped(rWalkMulti, "the report visitor", func(_ *core.Ctx, k string) bool { return strings.Contains(k, "visitAllMulti") }), rStackSlot, rStackParse, scoped(rStackEmpty, "the frame parser", func(_ *core.Ctx, k string) bool { return strings.Contains(k, "parsePrintedStack:") }), scoped(rOneParser, "GetReportableStackTrace", func(_ *core.Ctx, k string) bool { return containsAny(k, "GetReportableStackTrace", "convertPkgStack") }), rEffectReport, {Name: "R-TAINT/S5", Doc: "the S5 sub-class of R-TAINT: provenance of every value written into the Sentry message, exceptions and extras", Run: func(c *core.Ctx) { runTaintFiltered(c, func(s *Sink) bool { return s.Class == "S5" }) }},
+		Rules: []*Rule{rProbeOrder, rVisitAll, rDomainGetter, rFramePerEntry, rReport, rReverse, rFuncName, rIndexFound, rPerLayer, scoped(rWalkMulti, "the report visitor", func(_ *core.Ctx, k string) bool { return strings.Contains(k, "visitAllMulti") }), rStackSlot, rStackParse, scoped(rStackEmpty, "the frame parser", func(_ *core.Ctx, k string) bool { return strings.Contains(k, "parsePrintedStack:") }), scoped(rOneParser, "GetReportableStackTrace", func(_ *core.Ctx, k string) bool { return containsAny(k, "GetReportableStackTrace", "convertPkgStack") }), rEffectReport, {Name: "R-TAINT/S5", Doc: "the S5 sub-class of R-TAINT: provenance of every value written into the Sentry message, exceptions and extras", Run: func(c *core.Ctx) { runTaintFiltered(c, func(s *Sink) bool { return s.Class == "S5" }) }},
 			{Name: "R-LOOP-EXITS", Doc: rLoopExits.Doc, Run: func(c *core.Ctx) { runLoopExits(c, map[string]bool{"report.visitAllMulti": true}) }}},
 		Explain: "Decides: nil gives (nil, nil); the layer walk visits every node of the tree; stacks and safe details are collected in lock-step per node; every exception's module is the error's domain; the message is laid out source location / redacted verbose rendering / composition; the 'error types' extra is the per-layer buffer; the stack re-parsing covers the same type keys as the one-line source; provenance of every event field (S5). " +
 			"NOT decided: counting/ordering relations over runtime lists (exactly one exception per stack, one type line per layer).",
@@ -26,7 +26,7 @@ func init() {
 	})
 	register(&Prop{
 		ID: "C20",
-		Rules: []*Rule{forwardScoped("EncodeError", "DecodeError"), scoped(rAlwaysWraps, "WrapWithGrpcCode and the status helpers always attach the code they are given", func(_ *core.Ctx, k string) bool { return containsAny(k, "Grpc", "status.") }), rGrpcFlow, scoped(rDecline, "the decoders of the gRPC code and status types", func(_ *core.Ctx, k string) bool { return containsAny(k, "extgrpc", "status") }), scoped(rCodeGetter, "the gRPC code accessor", func(_ *core.Ctx, k string) bool { return strings.Contains(k, "GetGrpcCode") }), {Name: "R-CODEC", Doc: rCodec.Doc + " (restricted to the gRPC code wrapper and the gRPC status types)", Run: func(c *core.Ctx) {
+		Rules: []*Rule{rArgUsed, forwardScoped("EncodeError", "DecodeError"), scoped(rAlwaysWraps, "WrapWithGrpcCode and the status helpers always attach the code they are given", func(_ *core.Ctx, k string) bool { return containsAny(k, "Grpc", "status.") }), rGrpcFlow, scoped(rDecline, "the decoders of the gRPC code and status types", func(_ *core.Ctx, k string) bool { return containsAny(k, "extgrpc", "status") }), scoped(rCodeGetter, "the gRPC code accessor", func(_ *core.Ctx, k string) bool { return strings.Contains(k, "GetGrpcCode") }), {Name: "R-CODEC", Doc: rCodec.Doc + " (restricted to the gRPC code wrapper and the gRPC status types)", Run: func(c *core.Ctx) {
 			runCodec(c, func(cp *codecPair) bool {
 				return strings.Contains(cp.Name, "extgrpc") || strings.Contains(cp.Name, "status.")
 			})
@@ -36,7 +36,7 @@ func init() {
 	})
 	register(&Prop{
 		ID: "C19",
-		Rules: []*Rule{forwardScoped("WithHint*", "WithDetail*", "WithIssueLink", "UnimplementedError*", "WithTelemetry", "WithContextTags", "WithSafeDetails", "GetAll*", "Flatten*", "GetTelemetryKeys", "GetContextTags", "HasIssueLink", "IsIssueLink", "HasUnimplementedError", "IsUnimplementedError"), scoped(rFormatArg, "a stored hint / link text is printed, never used as a format", func(_ *core.Ctx, k string) bool { return containsAny(k, "hintdetail", "issuelink", "telemetrykeys") }), scoped(rEffect, "the accessors never rewrite the annotation they read", func(_ *core.Ctx, k string) bool { return containsAny(k, "keys", "hint", "detail", "IssueLink", "tags", "telemetry", "SafeDetails") }), rPassThroughGuard, rLayerGetter, scoped(rOrder, "the hint/detail/link/tag/safe-detail accessors", func(_ *core.Ctx, k string) bool { return !strings.Contains(k, "GetOneLineSource") }), rHintProviders, rDedup, rFlattenSep, rGuardField, scoped(rFormatStored, "the hint and detail constructors", func(_ *core.Ctx, k string) bool { return containsAny(k, "Hint", "Detail", "printf-like") }), scoped(rAlwaysWraps, "the hint/detail/link/key/tag/safe-detail constructors", func(_ *core.Ctx, k string) bool {
+		Rules: []*Rule{rArgUsed, forwardScoped("WithHint*", "WithDetail*", "WithIssueLink", "UnimplementedError*", "WithTelemetry", "WithContextTags", "WithSafeDetails", "GetAll*", "Flatten*", "GetTelemetryKeys", "GetContextTags", "HasIssueLink", "IsIssueLink", "HasUnimplementedError", "IsUnimplementedError"), scoped(rFormatArg, "a stored hint / link text is printed, never used as a format", func(_ *core.Ctx, k string) bool { return containsAny(k, "hintdetail", "issuelink", "telemetrykeys") }), scoped(rEffect, "the accessors never rewrite the annotation they read", func(_ *core.Ctx, k string) bool { return containsAny(k, "keys", "hint", "detail", "IssueLink", "tags", "telemetry", "SafeDetails") }), rPassThroughGuard, rLayerGetter, scoped(rOrder, "the hint/detail/link/tag/safe-detail accessors", func(_ *core.Ctx, k string) bool { return !strings.Contains(k, "GetOneLineSource") }), rHintProviders, rDedup, rFlattenSep, rGuardField, scoped(rFormatStored, "the hint and detail constructors", func(_ *core.Ctx, k string) bool { return containsAny(k, "Hint", "Detail", "printf-like") }), scoped(rAlwaysWraps, "the hint/detail/link/key/tag/safe-detail constructors", func(_ *core.Ctx, k string) bool {
 			return containsAny(k, "WithHint", "WithDetail", "WithIssueLink", "WithTelemetry", "WithContextTags", "WithSafeDetails", "UnimplementedError")
 		}), scoped(rStdIdentity, "the accessor packages", func(_ *core.Ctx, k string) bool {
 			return containsAny(k, "hintdetail.", "issuelink.", "telemetrykeys.", "contexttags.", "safedetails.", "errbase.GetAllSafeDetails")
@@ -49,7 +49,7 @@ func init() {
 	})
 	register(&Prop{
 		ID: "C12",
-		Rules: []*Rule{forwardScoped("WithSafeDetails", "GetAllSafeDetails", "GetSafeDetails", "WithTelemetry", "WithDomain", "New*", "Errorf", "Wrap*", "WithMessage*"), rPassThroughGuard, scoped(rEffect, "read-only operations (accessors, SafeDetails, report building) never rewrite what an error carries as safe details", func(_ *core.Ctx, k string) bool {
+		Rules: []*Rule{rOwnedBranches, rArgUsed, forwardScoped("WithSafeDetails", "GetAllSafeDetails", "GetSafeDetails", "WithTelemetry", "WithDomain", "New*", "Errorf", "Wrap*", "WithMessage*"), rPassThroughGuard, scoped(rEffect, "read-only operations (accessors, SafeDetails, report building) never rewrite what an error carries as safe details", func(_ *core.Ctx, k string) bool {
 			return containsAny(k, "SafeDetails", "safeDetails", "tags", "keys", "details")
 		}), rRetain, rErrRefs, rHideKeep, rLoopAlias, rAlwaysWraps, rMemo, scoped(rStdIdentity, "formatting and reporting code", func(_ *core.Ctx, k string) bool {
 			return containsAny(k, "errutil.", "errbase.", "report.", "withstack.", "safedetails.", "barriers.", "secondary.")
@@ -67,28 +67,28 @@ func init() {
 	})
 	register(&Prop{
 		ID:    "C11",
-		Rules: []*Rule{rOSPredicate, rFramePerEntry, rCodec, rPayloadDecoder, rGenericPath, rListRoundTrip, rDecline, rRegType, rErrnoTable, rStackSlot, rStackWhole, rStackParse, rStackEmpty, rTreeRec, rOneParser, rSiblingGuard, rCodeGetter},
+		Rules: []*Rule{scoped(rGrpcFlow, "the gRPC code of an error is the same after the interceptors as after a direct transfer", nil), rProbeOrder, rOSPredicate, rFramePerEntry, rCodec, rPayloadDecoder, rGenericPath, rListRoundTrip, rDecline, rRegType, rErrnoTable, rStackSlot, rStackWhole, rStackParse, rStackEmpty, rTreeRec, rOneParser, rSiblingGuard, rCodeGetter},
 		Explain: "Decides, for every registered type key, that each annotation field has a wire slot that the writer fills from that same field and the reader restores into that same field (payload members, positional safe details, message), that decoders rebuild the key's own type (so flag types recognised by Go type survive), that errno predicates travel in matching pairs, and that the printed-stack slot is re-parsed for the same key set by both stack accessors. " +
 			"NOT decided: equality of re-parsed frames (text parsing), tag values rendered through ValueStr, OS predicates on foreign platforms beyond the pairing.",
 		Trusted: []string{"go/ssa", "gogo/protobuf marshalling of the payload messages"},
 	})
 	register(&Prop{
 		ID:    "C01",
-		Rules: []*Rule{scoped(rEffect, "encoding and decoding are functions of their argument: no package-level memo in the codec path", func(_ *core.Ctx, k string) bool { return containsAny(k, "ncode", "ecode", "extractPrefix") }), rDecodeReadonly, rSpecialText, scoped(rCodec, "fields that Error() reads, and the cause", codecTextFields), rOpaque, rDecodeResult, rElide, rTreeRec, rRegType, rSep, scoped(rShape, "the opaque types (what an unknowing process renders)", func(_ *core.Ctx, k string) bool { return strings.Contains(k, "opaque") }), scoped(rWalkMulti, "the encoder walk", func(_ *core.Ctx, k string) bool { return containsAny(k, "EncodeError", "is a leaf for UnwrapOnce") }), rSiblingGuard, rLoopAlias, rWriteFaithful, rErrnoTable, scoped(rFormatArg, "encoders, decoders and the opaque types", func(_ *core.Ctx, k string) bool { return containsAny(k, ".decode", ".encode", "opaque") })},
+		Rules: []*Rule{scoped(rCmpGuard, "encoding and decoding never compare or hash error values of unknown dynamic type", func(_ *core.Ctx, k string) bool { return containsAny(k, "errbase.encode", "errbase.decode", "errbase.Encode", "errbase.Decode") }), rGenericMsg, scoped(rEffect, "encoding and decoding are functions of their argument: no package-level memo in the codec path", func(_ *core.Ctx, k string) bool { return containsAny(k, "ncode", "ecode", "extractPrefix") }), rDecodeReadonly, rSpecialText, scoped(rCodec, "fields that Error() reads, and the cause", codecTextFields), rOpaque, rDecodeResult, rElide, rTreeRec, rRegType, rSep, scoped(rShape, "the opaque types (what an unknowing process renders)", func(_ *core.Ctx, k string) bool { return strings.Contains(k, "opaque") }), scoped(rWalkMulti, "the encoder walk", func(_ *core.Ctx, k string) bool { return containsAny(k, "EncodeError", "is a leaf for UnwrapOnce") }), rSiblingGuard, rLoopAlias, rWriteFaithful, rErrnoTable, scoped(rFormatArg, "encoders, decoders and the opaque types", func(_ *core.Ctx, k string) bool { return containsAny(k, ".decode", ".encode", "opaque") })},
 		Explain: "Decides the structural necessary conditions of text/shape preservation: writer/reader slot agreement for every field that Error() reads (R-CODEC), verbatim keep-and-re-emit of message, details, message type and causes by unknowing processes (R-OPAQUE-TRANSPORT), cause/branch recursion on both sides in index order with no branch dropped for any count (R-TREE-RECURSION, R-WALK-MULTI), decoders rebuilding the key's type (no drift after hop 1), one separator constant removed exactly (R-SEP), and Error()/formatter shape agreement. " +
 			"NOT decided: equality of Error() strings for all messages (in particular suffix-matching ambiguity in extractPrefix for messages containing \": \"), protobuf marshalling itself.",
 		Trusted: []string{"go/ssa", "gogo/protobuf"},
 	})
 	register(&Prop{
 		ID:    "C02",
-		Rules: []*Rule{rMigration, rTypeNameRaw, rKeyMarker, scoped(rCodec, "identity-relevant fields: those Error() reads, explicit marks, domains", codecIdentityFields), rRegType, rDecodeResult, rDecline, rOpaque, rTypeKeyWho, rMarkLayers, rTreeRec, rSep, scoped(rShape, "the opaque types (the text an unknowing process contributes to identity)", func(_ *core.Ctx, k string) bool { return strings.Contains(k, "opaque") }), scoped(rFormatArg, "encoders, decoders and the opaque types", func(_ *core.Ctx, k string) bool { return containsAny(k, ".decode", ".encode", "opaque") }), scoped(rStdIdentity, "identity tests", func(_ *core.Ctx, k string) bool { return containsAny(k, "errors.Is", "errors.As") }), scoped(rAlwaysWraps, "Mark: the portable mark is always attached", func(_ *core.Ctx, k string) bool { return strings.Contains(k, "Mark(") })},
+		Rules: []*Rule{rErrnoTable, rGenericMsg, rMigration, rTypeNameRaw, rKeyMarker, scoped(rCodec, "identity-relevant fields: those Error() reads, explicit marks, domains", codecIdentityFields), rRegType, rDecodeResult, rDecline, rOpaque, rTypeKeyWho, rMarkLayers, rTreeRec, rSep, scoped(rShape, "the opaque types (the text an unknowing process contributes to identity)", func(_ *core.Ctx, k string) bool { return strings.Contains(k, "opaque") }), scoped(rFormatArg, "encoders, decoders and the opaque types", func(_ *core.Ctx, k string) bool { return containsAny(k, ".decode", ".encode", "opaque") }), scoped(rStdIdentity, "identity tests", func(_ *core.Ctx, k string) bool { return containsAny(k, "errors.Is", "errors.As") }), scoped(rAlwaysWraps, "Mark: the portable mark is always attached", func(_ *core.Ctx, k string) bool { return strings.Contains(k, "Mark(") })},
 		Explain: "Identity = (Error() text, chain of (family name, extension)). Decides that every identity-relevant field has slot agreement (incl. withMark's explicit mark and withDomain's extension), decoders rebuild the key's type, unknowing hops keep and re-emit the received names, every consumer of identity goes through getTypeDetails with the full mark where the extension matters, and a mark has one full type mark per layer. " +
 			"NOT decided: that text is preserved (C01's undecided part), semantics of foreign Is methods, 'never starts matching' over all pairs.",
 		Trusted: []string{"go/ssa"},
 	})
 	register(&Prop{
 		ID: "C04",
-		Rules: []*Rule{rDecodeReadonly, rReencodeStable, scoped(rEffect, "reading or forwarding an error never rewrites the details it stores from the wire", func(_ *core.Ctx, k string) bool {
+		Rules: []*Rule{scoped(rProtocol, "UnwrapOnce - the dispatch between leaf and wrapper encoding - probes the single-cause protocols only", func(_ *core.Ctx, k string) bool { return strings.Contains(k, "UnwrapOnce") }), rGenericMsg, rDecodeReadonly, rReencodeStable, scoped(rEffect, "reading or forwarding an error never rewrites the details it stores from the wire", func(_ *core.Ctx, k string) bool {
 			return containsAny(k, "SafeDetails", "details", "opaque", "ReportablePayload")
 		}), rOpaque, rDecodeResult, rWireMsg, rTreeRec, rRegType, rCodec, scoped(rShape, "the opaque types", func(_ *core.Ctx, k string) bool { return strings.Contains(k, "opaque") }), rSiblingGuard, rSep},
 		Explain: "Decides that opaque values keep and re-emit exactly what was received (message, details incl. payload Any, message type, causes - R-OPAQUE-TRANSPORT, R-TREE-RECURSION), that the wire message each registered encoder sends is what an unknowing receiver needs to rebuild Error() for the type's Error() shape (R-WIRE-MSG), and that a later knowing receiver rebuilds from payload/details (R-CODEC, R-REGTYPE). " +
@@ -97,7 +97,7 @@ func init() {
 	})
 	register(&Prop{
 		ID: "C07",
-		Rules: []*Rule{forwardScoped("Handled*", "Opaque", "HandleAsAssertionFailure*", "NewAssertionErrorWithWrappedErrf", "WithSecondaryError", "CombineErrors", "Mark"), rDomainGetter, scoped(rWriteFaithful, "the renderer gives back every newline it takes (Handled computes its message through it)", func(_ *core.Ctx, k string) bool { return strings.Contains(k, "separator") }), scoped(rDetailPrint, "the hidden errors of barriers and secondary-error wrappers are printed, as values, in the verbose rendering", func(_ *core.Ctx, k string) bool { return containsAny(k, "maskedErr", "secondaryError") }), rHide, rHideKeep, rBarrierCtor, rWrapDual, rErrRefs, rFormatArg, rSecondaryAttach, scoped(rRegType, "the barrier and secondary-error types", func(_ *core.Ctx, k string) bool { return containsAny(k, "barriers.", "secondary.") }), {Name: "R-CODEC", Doc: rCodec.Doc + " (restricted to the barrier and secondary-error types)", Run: func(c *core.Ctx) {
+		Rules: []*Rule{rMarkLayers, rArgUsed, forwardScoped("Handled*", "Opaque", "HandleAsAssertionFailure*", "NewAssertionErrorWithWrappedErrf", "WithSecondaryError", "CombineErrors", "Mark"), rDomainGetter, scoped(rWriteFaithful, "the renderer gives back every newline it takes (Handled computes its message through it)", func(_ *core.Ctx, k string) bool { return strings.Contains(k, "separator") }), scoped(rDetailPrint, "the hidden errors of barriers and secondary-error wrappers are printed, as values, in the verbose rendering", func(_ *core.Ctx, k string) bool { return containsAny(k, "maskedErr", "secondaryError") }), rHide, rHideKeep, rBarrierCtor, rWrapDual, rErrRefs, rFormatArg, rSecondaryAttach, scoped(rRegType, "the barrier and secondary-error types", func(_ *core.Ctx, k string) bool { return containsAny(k, "barriers.", "secondary.") }), {Name: "R-CODEC", Doc: rCodec.Doc + " (restricted to the barrier and secondary-error types)", Run: func(c *core.Ctx) {
 			runCodec(c, func(cp *codecPair) bool { return containsAny(cp.Name, "barriers.", "secondary.") })
 		}}, {Name: "R-TAINT/redactable", Doc: "the hidden message of a barrier is carried as a redactable string: conversions to redact.RedactableString in package barriers (and what its decoders receive) only from strings that were built as redactable - a plain string relabelled as redactable, or a redactable one escaped again, changes the message text after a hop", Run: func(c *core.Ctx) {
 			runTaintFiltered(c, func(s *Sink) bool { return s.Mode == "redactable" && strings.Contains(s.Name, "barriers.") })
@@ -110,7 +110,7 @@ func init() {
 	})
 	register(&Prop{
 		ID: "C06",
-		Rules: []*Rule{scoped(rFmtDelegate, "the Formattable adapter and the module types route every verb through the one dispatcher (no fast path that writes Error() directly)", nil), rEsc, rBufFlag, rWriteFaithful, rVerbDispatch, rRedactableOps, {Name: "R-TAINT/redactable", Doc: "the S3 sub-class of R-TAINT that concerns well-formedness: every conversion of a plain string/[]byte to redact.RedactableString/RedactableBytes takes a value that was BUILT as a redactable string (redact.Sprint*/Redact(), a typed RedactableString input, or the wire slot an encoder fills from one) - never a merely safe plain string, whose marker runes would not be escaped",
+		Rules: []*Rule{rFormattable, scoped(rFmtDelegate, "the Formattable adapter and the module types route every verb through the one dispatcher (no fast path that writes Error() directly)", nil), rEsc, rBufFlag, rWriteFaithful, rVerbDispatch, rRedactableOps, {Name: "R-TAINT/redactable", Doc: "the S3 sub-class of R-TAINT that concerns well-formedness: every conversion of a plain string/[]byte to redact.RedactableString/RedactableBytes takes a value that was BUILT as a redactable string (redact.Sprint*/Redact(), a typed RedactableString input, or the wire slot an encoder fills from one) - never a merely safe plain string, whose marker runes would not be escaped",
 			Run: func(c *core.Ctx) { runTaintFiltered(c, func(s *Sink) bool { return s.Mode == "redactable" }) }}},
 		Explain: "Decides the structural half of well-formedness and of the refusal clause: unsafe layer text reaches the redactable buffer only escaped-and-enclosed (R-ESC); the 'already redactable' flag is set only for text produced by the safe printer (R-BUFFLAG); plain strings are never re-labelled as redactable without escaping; the verb dispatch refuses %q/%x/%X/%#v under redactable output and honours width/precision in every case (exhaustive evaluation of the guard predicates). " +
 			"NOT decided: balance/non-nesting/per-line balance for arbitrary input bytes (the redact package's escaping and state.Write's newline bookkeeping are loop arithmetic over runtime bytes), and marker-stripping congruence with the plain rendering.",
@@ -126,7 +126,7 @@ func init() {
 	})
 	register(&Prop{
 		ID: "C14",
-		Rules: []*Rule{rMultiUncond, rProtocol, rWrapDual, rStdIdentity, rUnwrapAll, rWalkCurrent, rCmpGuard, rIsMethod, rAsTarget, rOwnedBranches, scoped(rWalkMulti, "Is, IsAny, As", func(_ *core.Ctx, k string) bool {
+		Rules: []*Rule{rJoinFilter, rMultiUncond, rProtocol, rWrapDual, rStdIdentity, rUnwrapAll, rWalkCurrent, rCmpGuard, rIsMethod, rAsTarget, rOwnedBranches, scoped(rWalkMulti, "Is, IsAny, As", func(_ *core.Ctx, k string) bool {
 			return containsAny(k, "markers.Is", "errutil.As", "is a leaf for UnwrapOnce")
 		}), forwardScoped("Is", "IsAny", "As", "If", "HasType", "HasInterface", "Unwrap", "UnwrapOnce", "UnwrapAll", "UnwrapMulti", "Cause")},
 		Explain: "Decides the structural side of drop-in compatibility: the library probes exactly the standard protocol methods (Is/As/Unwrap/Unwrap []error/Cause) with their exact signatures and precedence; every library wrapper implements both Cause() and Unwrap() over the same field so stdlib and pkg/errors traverse library chains; Is/As recurse into multi-cause branches in order; the root API forwards to the right implementation with parameters in order. " +
@@ -135,7 +135,7 @@ func init() {
 	})
 	register(&Prop{
 		ID: "C13",
-		Rules: []*Rule{rMultiUncond, rJoinElements, rWalkMulti, rTreeRec, scoped(rOpaque, "the causes of multi-cause nodes", func(_ *core.Ctx, k string) bool {
+		Rules: []*Rule{rVisitAll, rJoinFilter, rMultiUncond, rJoinElements, rWalkMulti, rTreeRec, scoped(rOpaque, "the causes of multi-cause nodes", func(_ *core.Ctx, k string) bool {
 			return containsAny(k, "causes", "MultierrorCauses", "opaqueLeafCauses")
 		}), rOwnedBranches, rLoopAlias, rJoinNode, rDecodeNonNil, scoped(rProtocol, "multi-cause errors are leaves for UnwrapOnce", func(_ *core.Ctx, k string) bool {
 			return containsAny(k, "UnwrapOnce", "UnwrapMulti", "Unwrap() []error")
@@ -148,14 +148,14 @@ func init() {
 	})
 	register(&Prop{
 		ID:    "C09",
-		Rules: []*Rule{rFmtDelegate, rShape, rDetailPrint, rElide, rVerbDispatch, rGuardField, rSep, rStateFlags, rWriteFaithful, scoped(rFormatArg, "the detail formatters: a stored text is printed, not used as a format", func(_ *core.Ctx, k string) bool { return containsAny(k, "FormatError", "SafeFormatError") }), rSpecialText, scoped(rCodec, "clause A2: details that a decoder reads by position are written at fixed positions, so each wrapper's own detail lands in its own field (and is printed under its own label) after a hop", func(_ *core.Ctx, k string) bool { return strings.Contains(k, "] A2 ") })},
+		Rules: []*Rule{rVisitAll, rFormattable, rFmtDelegate, rShape, rDetailPrint, rElide, rVerbDispatch, rGuardField, rSep, rStateFlags, rWriteFaithful, scoped(rFormatArg, "the detail formatters: a stored text is printed, not used as a format", func(_ *core.Ctx, k string) bool { return containsAny(k, "FormatError", "SafeFormatError") }), rSpecialText, scoped(rCodec, "clause A2: details that a decoder reads by position are written at fixed positions, so each wrapper's own detail lands in its own field (and is printed under its own label) after a hop", func(_ *core.Ctx, k string) bool { return strings.Contains(k, "] A2 ") })},
 		Explain: "Decides the code-level reasons the verbs are mutually consistent: every instantiated library type routes Format through the single dispatcher FormatError; Error() and the detail formatter of each type agree on the message shape (so %v/%s = Error() at every depth); each wrapper's annotation fields reach a Print inside the detail region. " +
 			"NOT decided: width/precision/flag rendering (delegated to fmt), entry numbering/indentation and the 'Error types' line (loop arithmetic over runtime lists), comparison with reference renderings.",
 		Trusted: []string{"go/ssa", "fmt and redact formatting semantics"},
 	})
 	register(&Prop{
 		ID: "C08",
-		Rules: []*Rule{scoped(rEffect, "Is/IsAny are pure functions of their arguments: no package-level memo of marks", func(_ *core.Ctx, k string) bool { return containsAny(k, "markers.", "getMark", "Mark") }), rKeyMarker, rCmpGuard, {Name: "R-BOUNDS", Doc: rBounds.Doc + " (restricted to package markers: equalMarks' lock-step indexing is also the 'difference in chain length makes them different' clause)",
+		Rules: []*Rule{scoped(rOpaque, "a received layer keeps the family name it came with (getTypeDetails of the opaque types)", func(_ *core.Ctx, k string) bool { return strings.Contains(k, "getTypeDetails") }), scoped(rEffect, "Is/IsAny are pure functions of their arguments: no package-level memo of marks", func(_ *core.Ctx, k string) bool { return containsAny(k, "markers.", "getMark", "Mark") }), rKeyMarker, rCmpGuard, {Name: "R-BOUNDS", Doc: rBounds.Doc + " (restricted to package markers: equalMarks' lock-step indexing is also the 'difference in chain length makes them different' clause)",
 			Run: func(c *core.Ctx) {
 				runBounds(c, func(rel, fn string) bool { return rel == "markers" })
 			}}, rRecover, rNilSafe, rMarkLayers, rCtorCause, rWalkCurrent, rIsMethod, scoped(rWalkMulti, "Is and IsAny range over errbase.UnwrapMulti itself (no derived collection keyed by error values, which may be unhashable)", func(_ *core.Ctx, k string) bool { return strings.Contains(k, "markers.Is") }), rMemo, scoped(rAlwaysWraps, "Mark", func(_ *core.Ctx, k string) bool { return strings.Contains(k, "Mark(") }), scoped(rStdIdentity, "identity tests", func(_ *core.Ctx, k string) bool { return containsAny(k, "errors.Is", "errors.As") }), {Name: "R-LOOP-EXITS", Doc: rLoopExits.Doc, Run: func(c *core.Ctx) { runLoopExits(c, map[string]bool{"markers.Is": true, "markers.IsAny": true}) }}},
@@ -165,7 +165,7 @@ func init() {
 	})
 	register(&Prop{
 		ID: "C16",
-		Rules: []*Rule{forwardScoped("New*", "Errorf", "Wrap*", "WithStack*", "Join*", "AssertionFailed*", "NewAssertionErrorWithWrappedErrf", "HandleAsAssertionFailure*", "UnimplementedError*", "GetOneLineSource", "GetReportableStackTrace"), rStackParse, scoped(rJoinNode, "JoinWithDepth always goes through WithStackDepth: no shortcut returns an argument without the stack of the call", func(_ *core.Ctx, k string) bool { return strings.Contains(k, "JoinWithDepth") }), rDepth, rMemo, rFuncName, rStackWhole, scoped(rAlwaysWraps, "the stack-capturing constructors: a stack is captured at every call, never skipped because of what the error already carries", func(_ *core.Ctx, k string) bool {
+		Rules: []*Rule{rProbeOrder, forwardScoped("New*", "Errorf", "Wrap*", "WithStack*", "Join*", "AssertionFailed*", "NewAssertionErrorWithWrappedErrf", "HandleAsAssertionFailure*", "UnimplementedError*", "GetOneLineSource", "GetReportableStackTrace"), rStackParse, scoped(rJoinNode, "JoinWithDepth always goes through WithStackDepth: no shortcut returns an argument without the stack of the call", func(_ *core.Ctx, k string) bool { return strings.Contains(k, "JoinWithDepth") }), rDepth, rMemo, rFuncName, rStackWhole, scoped(rAlwaysWraps, "the stack-capturing constructors: a stack is captured at every call, never skipped because of what the error already carries", func(_ *core.Ctx, k string) bool {
 			return containsAny(k, "WithStack", "Wrap", "AssertionFail", "AssertionError", "HandleAsAssertion")
 		}), scoped(rBarrierCtor, "the assertion-failure constructors", func(_ *core.Ctx, k string) bool { return containsAny(k, "Assertion") }), scoped(rStackEmpty, "the one-line source parser", func(_ *core.Ctx, k string) bool { return strings.Contains(k, "getOneLineSourceFromPrintedStack") }), rOrderOneLine, scoped(rOneParser, "GetOneLineSource", func(_ *core.Ctx, k string) bool {
 			return containsAny(k, "GetOneLineSource", "getOneLineSourceFromPkgStack")
@@ -176,14 +176,14 @@ func init() {
 	})
 	register(&Prop{
 		ID:    "C10",
-		Rules: []*Rule{rMultiUncond, rPassThroughGuard, {Name: "R-LOOP-EXITS", Doc: rLoopExits.Doc + " (here: the walks of Is and IsAny - a wrapper above a matching layer never ends the search early)", Run: func(c *core.Ctx) { runLoopExits(c, map[string]bool{"markers.Is": true, "markers.IsAny": true}) }}, rNil, rBoxedNil, rShape, rWrapDual, rCtorCause, rAlwaysWraps, rFormatStored, rOwnedBranches, scoped(rWalkCurrent, "Is, IsAny, If, As and the accessors", nil), scoped(rWalkMulti, "Is, IsAny, As: every layer of the chain looks into its branches, so a match inside a branch survives any wrapper", func(_ *core.Ctx, k string) bool { return containsAny(k, "markers.Is", "errutil.As") }), rFormatArg, rFmtPath, forwardScoped("New*", "Wrap*", "With*", "Errorf", "Handled*", "Opaque", "Mark", "CombineErrors", "Join*", "AssertionFailed*", "NewAssertionErrorWithWrappedErrf", "HandleAsAssertionFailure*", "UnimplementedError*")},
+		Rules: []*Rule{rArgUsed, rMultiUncond, rPassThroughGuard, {Name: "R-LOOP-EXITS", Doc: rLoopExits.Doc + " (here: the walks of Is and IsAny - a wrapper above a matching layer never ends the search early)", Run: func(c *core.Ctx) { runLoopExits(c, map[string]bool{"markers.Is": true, "markers.IsAny": true}) }}, rNil, rBoxedNil, rShape, rWrapDual, rCtorCause, rAlwaysWraps, rFormatStored, rOwnedBranches, scoped(rWalkCurrent, "Is, IsAny, If, As and the accessors", nil), scoped(rWalkMulti, "Is, IsAny, As: every layer of the chain looks into its branches, so a match inside a branch survives any wrapper", func(_ *core.Ctx, k string) bool { return containsAny(k, "markers.Is", "errutil.As") }), rFormatArg, rFmtPath, forwardScoped("New*", "Wrap*", "With*", "Errorf", "Handled*", "Opaque", "Mark", "CombineErrors", "Join*", "AssertionFailed*", "NewAssertionErrorWithWrappedErrf", "HandleAsAssertionFailure*", "UnimplementedError*")},
 		Explain: "Decides the nil clauses of the property for every exported constructor on every path (nilness abstract interpretation, no execution). " +
 			"NOT decided: equality of Error() strings with the compositional model, 'Join of only nils = nil' (a count over runtime arguments).",
 		Trusted: []string{"go/ssa", "nilness lattice with branch refinement; unknown callees are Top"},
 	})
 	register(&Prop{
 		ID:    "C05",
-		Rules: []*Rule{rRegistryNonNil, rAssertOK, rBounds, rNilField, rDecodeNonNil, rTypedNil, rEnumTotal, rUnmarshalOK, rPbNilPtr, scoped(rOpaque, "the opaque arms of encodeLeaf/encodeWrapper: a received opaque value is re-emitted from its stored fields and never handed to a registered encoder (whose type assertion would panic)", func(_ *core.Ctx, k string) bool { return strings.Contains(k, "re-emits") })},
+		Rules: []*Rule{rAssertNil, rRegistryNonNil, rAssertOK, rBounds, rNilField, rDecodeNonNil, rTypedNil, rEnumTotal, rUnmarshalOK, rPbNilPtr, scoped(rOpaque, "the opaque arms of encodeLeaf/encodeWrapper: a received opaque value is re-emitted from its stored fields and never handed to a registered encoder (whose type assertion would panic)", func(_ *core.Ctx, k string) bool { return strings.Contains(k, "re-emits") })},
 		Explain: "Decides, for every site in /repo's hand-written source, structural necessary conditions of 'DecodeError and the decoded error's methods never panic': " +
 			"no unchecked type assertion on wire-controlled values (R-ASSERT-OK). " +
 			"NOT decided: panics inside dependencies (gogo/protobuf UnmarshalAny, grpc status), arbitrary fuzzed bytes, and panic classes other than failed type assertions, out-of-range indexing and nil dereference of decoder-built fields.",
